@@ -120,6 +120,10 @@ class Driver:
     def cleanup(self, sys_):
         pass
 
+    def outcome_oracle(self, acc, sys_, hist, outcomes):
+        """cheap check of the LAST event's own outcome; run on every transition, also when the state is not new"""
+        return None
+
     def terminal(self, outs, sys_=None):
         """True if a history with these outcomes must not be extended (e.g. a step did not terminate)"""
         return False
@@ -149,6 +153,8 @@ def explore(driver, acc, depth, roots=None, max_states=None, oracle_on="all"):
             acc.count("transitions", len(r))
         acc.add("states", fp)
         seen.add(fp)
+        if r:
+            driver.outcome_oracle(acc, sys_, r, outs)
         driver.oracle(acc, sys_, r, outs)
         acc.count("traces_validated_against_impl")
         driver.cleanup(sys_)
@@ -168,6 +174,7 @@ def explore(driver, acc, depth, roots=None, max_states=None, oracle_on="all"):
             acc.count("transitions")
             acc.ev()
             fp = driver.fp(sys_, nh)
+            driver.outcome_oracle(acc, sys_, nh, outs)
             # oracle_on="new": the oracle (a whole probe vector, each probe on its own replay) runs once per
             # distinct state — sound as far as the fingerprint captures everything futures depend on;
             # oracle_on="all" re-checks it on every transition and does not rely on that argument.
